@@ -65,6 +65,9 @@ def cases(rng, tier):
                     'qclass': rng.choice(['sorted', 'sorted', 'unsorted', 'zero']), 'mode': rng.choice(['left', 'right']),
                     'spectrum': 'random', 'tol_kind': rng.choice(['generic', 'generic', 'boundary']), 'tol_frac': rng.random(),
                     'Dmax': rng.choice([6, 8])})
+    for k in range({'quick': 8, 'thorough': 40, 'search': 8}[tier]):
+        out.append({'kind': 'compress', 'seed': rng.getrandbits(30), 'L': rng.choice([3, 3, 4]), 'd': 4, 'qclass': 'fermi', 'mode': rng.choice(['left', 'right']),
+                    'spectrum': 'fermi', 'tol_kind': rng.choice(['zero', 'generic', 'generic']), 'tol_frac': rng.random(), 'Dmax': 16})
     for d in (4, 5, 6):
         for qc in ('zero', 'sorted'):
             for mode in ('left', 'right'):
@@ -121,6 +124,11 @@ def _state(case):
             for s in range(d):
                 A[s, 0 if i == 0 else s, 0 if i == L - 1 else s] = w[s] if i == 0 else 1.0
             psi.A[i] = A
+    elif sp == 'fermi':
+        # Fermi-Hubbard sector structure: encoded charge pairs (N << 16) + S, several S per N on every bond
+        import tdgen as T
+        H = T.hamiltonian('fermi', L, rs)
+        psi = T.state(H, rs, complete=True)
     elif sp == 'tail':
         # L = 2: one dominant Schmidt value and a tail of d - 1 equal small ones (weight TAIL_E each), in one sector or spread over two;
         # with tol = 2.5 TAIL_E the rule discards exactly two of them; truncating twice (per sector and again, or two passes) discards more
